@@ -22,6 +22,7 @@ import (
 	"go.step.sm/crypto/jose"
 	"golang.org/x/crypto/ssh"
 
+	"github.com/smallstep/certificates/authority"
 	"github.com/smallstep/certificates/authority/config"
 	"github.com/smallstep/certificates/authority/provisioner"
 	"verif/harness/fixture"
@@ -72,6 +73,8 @@ type World struct {
 	start   time.Time
 	srv     *httptest.Server
 	sshKeys map[bool][]ssh.PublicKey // user? -> CA keys
+	sshUser crypto.Signer            // nil: no user CA key configured
+	sshHost crypto.Signer            // nil: no host CA key configured
 	popKeys []crypto.Signer
 }
 
@@ -109,6 +112,8 @@ func leafFrom(root *x509.Certificate, rk crypto.Signer, cn string, ku x509.KeyUs
 
 type worldSpec struct {
 	hosts []string
+	db    bool   // bbolt database (default: none, tokens tracked in memory)
+	only  string // "user" / "host": the authority has only that SSH CA key (ssh must be true)
 	ssh   bool
 	noIat bool
 	full  bool // all provisioner types
@@ -118,6 +123,9 @@ var worldSpecs = []worldSpec{
 	{hosts: []string{"ca.verif.test"}, ssh: true, full: true},
 	{hosts: []string{"ca.verif.test", "::1"}, ssh: false, full: true},
 	{hosts: []string{"CA2.verif.test:8443", "10.1.2.3"}, ssh: true, noIat: true, full: false},
+	// only one of the two SSH CA keys configured: certificates of the other type have no CA key at all
+	{hosts: []string{"ca.verif.test"}, ssh: true, only: "user", full: false},
+	{hosts: []string{"ca.verif.test"}, ssh: true, only: "host", full: false},
 }
 
 func newWorld(spec worldSpec) *World {
@@ -200,14 +208,26 @@ func newWorld(spec worldSpec) *World {
 		add(&Prov{Ty: "sshpop", Name: "pop-norenew", Init: true, SSH: true, DisableRenewal: true},
 			&provisioner.SSHPOP{Type: "SSHPOP", Name: "pop-norenew", Claims: &provisioner.Claims{EnableSSHCA: bptr(true), DisableRenewal: bptr(true)}})
 	}
-	ca, err := fixture.New(fixture.Opts{SSH: spec.ssh, NoDB: true, Provisioners: extra,
+	fo := fixture.Opts{SSH: spec.ssh && spec.only == "", NoDB: !spec.db, Provisioners: extra,
 		JWKClaims: sshClaims,
 		Config: func(c *config.Config) {
 			c.DNSNames = spec.hosts
 			c.AuthorityConfig.DisableIssuedAtCheck = spec.noIat
-		}})
+		}}
+	switch spec.only {
+	case "user":
+		w.sshUser = must(ecdsa.GenerateKey(elliptic.P256(), rand.Reader))
+		fo.Extra = []authority.Option{authority.WithSSHUserSigner(w.sshUser)}
+	case "host":
+		w.sshHost = must(ecdsa.GenerateKey(elliptic.P256(), rand.Reader))
+		fo.Extra = []authority.Option{authority.WithSSHHostSigner(w.sshHost)}
+	}
+	ca, err := fixture.New(fo)
 	if err != nil {
 		panic(fmt.Sprintf("fixture: %v", err))
+	}
+	if spec.ssh && spec.only == "" {
+		w.sshUser, w.sshHost = ca.SSHUser, ca.SSHHost
 	}
 	w.ca = ca
 	w.start = ca.Auth.GetInfo().StartTime
@@ -215,11 +235,12 @@ func newWorld(spec worldSpec) *World {
 	def := &Prov{Ty: "jwk", Name: "jwk", Kid: ca.JWK.KeyID, Init: true, SSH: true, jwk: ca.JWK, real: ca.JWKProv, Configured: true}
 	w.provs = append([]*Prov{def}, w.provs...)
 	w.minters = append([]*Prov{def}, w.minters...)
-	if spec.ssh {
-		w.sshKeys = map[bool][]ssh.PublicKey{
-			true:  {must(ssh.NewPublicKey(ca.SSHUser.Public()))},
-			false: {must(ssh.NewPublicKey(ca.SSHHost.Public()))},
-		}
+	w.sshKeys = map[bool][]ssh.PublicKey{}
+	if w.sshUser != nil {
+		w.sshKeys[true] = []ssh.PublicKey{must(ssh.NewPublicKey(w.sshUser.Public()))}
+	}
+	if w.sshHost != nil {
+		w.sshKeys[false] = []ssh.PublicKey{must(ssh.NewPublicKey(w.sshHost.Public()))}
 	}
 	// cross-check the ids the model derives against the real provisioners
 	for _, p := range w.provs {
